@@ -423,6 +423,8 @@ Inductive dexpr :=
 | DSetitem (buf val : dexpr)
 | DCtor (a : dexpr) (dt : option dexpr)  (* Tensor(a) / Tensor(a, dtype=<e>.dtype) *)
 | DIsNone (a : dexpr)
+| DIsPy (i f : bool) (a : dexpr)         (* isinstance(a, int / float / (int, float)) *)
+| DDtypeEq (a b : dexpr)                 (* a.dtype == b.dtype *)
 | DIsNp (a : dexpr)                      (* isinstance(a, Tensor) at the tensor level: a NumPy value vs a Python one *)
 | DNot (a : dexpr)
 | DIf (c a b : dexpr)                    (* both branches unless the test is decided by the abstract value *)
@@ -476,6 +478,26 @@ Definition notv (v : absval) : absval :=
   | NoneV => PyBool (Some true)
   | ErrV => ErrV
   | _ => PyBool None
+  end.
+
+(* isinstance(v, int) / isinstance(v, float) / isinstance(v, (int, float)) : bool is a subclass of int, np.float64 a
+   subclass of float; NumPy integers and the other NumPy floats are neither *)
+Definition is_py (i f : bool) (v : absval) : absval :=
+  match v with
+  | PyInt | PyBool _ => PyBool (Some i)
+  | PyFloat => PyBool (Some f)
+  | Np F64 KScalar => PyBool (Some f)
+  | Np F64 KEither => if f then PyBool None else PyBool (Some false)
+  | Np _ _ | NoneV | ShapeV | StrV _ | TupV _ => PyBool (Some false)
+  | OpaqueV => PyBool None
+  | _ => ErrV
+  end.
+
+(* a.dtype == b.dtype (b usually a dtype constant such as np.float32) *)
+Definition dtype_eqv (a b : absval) : absval :=
+  match a, b with
+  | Np d _, Np d' _ => PyBool (Some (dtype_eqb d d'))
+  | _, _ => ErrV
   end.
 
 (* which branches of an `if` are possible for a value of the test *)
@@ -564,6 +586,8 @@ Fixpoint deval (c : cfg) (env : list absval) (lv : absval) (e : dexpr) {struct e
       (* `if dtype is not None and data.dtype != dtype: data = data.astype(dtype)` *)
       vflat (fun tv => lift1 (fun v => match tv with NoneV => v | _ => astypev v tv end) (vflat (ctorv c) (nounb (ev a)))) (nounb (ev t))
   | DIsNone a => lift1 is_none (ev a)
+  | DIsPy i f a => lift1 (is_py i f) (ev a)
+  | DDtypeEq a b => lift2 dtype_eqv (ev a) (ev b)
   | DIsNp a => lift1 is_np (ev a)
   | DNot a => lift1 notv (ev a)
   | DIf x a b =>
